@@ -41,6 +41,32 @@ def state_of(sv):
   return {'owners': snap['owners'], 'studies': snap['studies'], 'direct': direct}
 
 
+def es_records(sv, state):
+  """Early-stopping records of every listed trial, read through the datastore's public read method.
+
+  They are not part of the GetOperation surface, but an acknowledged
+  CheckTrialEarlyStoppingState answer lives there: a restarted server that
+  holds another record answers the next check differently.
+  """
+  from vizier._src.service import resources  # pylint: disable=g-import-not-at-top
+  out = {}
+  for name, st in state['studies'].items():
+    if not isinstance(st.get('trials'), dict):
+      continue
+    owner, sid = name.split('/')[1], name.split('/')[3]
+    for tid in st['trials']:
+      oname = resources.EarlyStoppingOperationResource(owner, sid, int(tid)).name
+      try:
+        op = sv.datastore.get_early_stopping_operation(oname)
+      except KeyError:
+        continue
+      except Exception as e:  # pylint: disable=broad-except
+        out[oname] = ('unreadable', type(e).__name__)
+        continue
+      out[oname] = (int(op.status), bool(op.should_stop), bool(op.failure_message))
+  return out
+
+
 class C05(runner.Check):
   prop = 'C05'
   level = 'fault_enumeration'
@@ -66,7 +92,7 @@ class C05(runner.Check):
   min_budget_s = 150
   probes = ['probe.hot-journal-image', 'probe.crash-between-commits-of-one-rpc', 'probe.pool-used',
             'probe.liveness-interrupted-worker', 'probe.liveness-fresh-worker', 'probe.liveness-create-study-retry', 'probe.second-crash',
-            'probe.over-delivery']
+            'probe.over-delivery', 'probe.early-stopping-record-changed']
   thorough_only_probes = ['probe.second-crash']
 
   def gen(self, rng, idx, tier):
@@ -142,6 +168,7 @@ class C05(runner.Check):
     n = len(plan['ops'])
     armed_from = {'all': 0, 'last3': max(0, n - 3), 'last1': max(0, n - 1)}[plan.get('armed', 'last3')]
     states = [state_of(world.sv)]
+    es_states = [es_records(world.sv, states[0])]
     concrete = []
     last_worker = None
     try:
@@ -156,6 +183,9 @@ class C05(runner.Check):
           rec.mark('op-end')
         rec.disarm()
         states.append(state_of(world.sv))
+        es_states.append(es_records(world.sv, states[-1]))
+        if es_states[-1] != es_states[-2]:
+          res.bump('probe.early-stopping-record-changed')
         res.log.append([O.jsonable(c), O.jsonable(out[:2])])
         res.bump('op.' + c['kind'])
         if c['kind'] == 'SuggestTrials' and out[0] == 'ok':
@@ -189,7 +219,7 @@ class C05(runner.Check):
         res.bump('probe.hot-journal-image')
       commits_before = sum(1 for t in img['tags'][:1] if t)  # placeholder to keep tags referenced
       del commits_before
-      viol = self._check_image(plan, res, img, j, c, states, workers_by_op.get(j), clk, polls)
+      viol = self._check_image(plan, res, img, j, c, states, workers_by_op.get(j), clk, polls, es_states=es_states)
       res.log.append(['image', j, img['seq'], img['tag'], img['journal'], [v[0] for v in viol]])
       if viol:
         seen = set()
@@ -202,7 +232,7 @@ class C05(runner.Check):
     res.sample = {'cfg': cfg, 'ops': plan['ops'][:8], 'images': len(rec.images),
                   'image_tags': [(i['op'], i['tag'], i['journal']) for i in rec.images[:12]]}
 
-  def _check_image(self, plan, res, img, j, c, states, int_worker, clk, polls, depth=0):
+  def _check_image(self, plan, res, img, j, c, states, int_worker, clk, polls, depth=0, es_states=None):
     cfg = plan['cfg']
     kind = c['kind']
     viol = []
@@ -226,6 +256,12 @@ class C05(runner.Check):
       if 'op-end' in img.get('tags', ()) and rec_state != b:
         # The call had returned (was acknowledged) when this image was taken.
         viol.append(('acknowledged-change-lost', 'image taken after the call returned: ' + self._diff(rec_state, b, b)))
+      elif 'op-end' in img.get('tags', ()) and es_states is not None:
+        got, want = es_records(w2.sv, rec_state), es_states[j + 1]
+        if got != want:
+          diff = sorted(k for k in set(got) | set(want) if got.get(k) != want.get(k))[:2]
+          viol.append(('acknowledged-change-lost', 'image taken after the call returned: early-stopping record '
+                       + '; '.join(f'{k}: restarted={got.get(k)} live={want.get(k)}' for k in diff)))
       elif rec_state != a and rec_state != b:
         if kind in ATOMIC:
           viol.append(('torn-single-resource-call', self._diff(rec_state, a, b)))
